@@ -57,14 +57,34 @@ def sim_classes():
     from rtctools.simulation.csv_mixin import CSVMixin
     from rtctools.simulation.io_mixin import IOMixin
     from rtctools.simulation.pi_mixin import PIMixin
-    from rtctools.simulation.simulation_problem import SimulationProblem
+    from rtctools.simulation.simulation_problem import SimulationProblem, Variable
 
     class Plain(SimulationProblem):
+        c09_extras = []
+
         def compiler_options(self):
             o = super().compiler_options()
             o["cache"] = False
             o["library_folders"] = []
             return o
+
+        def extra_variables(self):
+            return [Variable(e["n"], nominal=e["nom"]) for e in self.c09_extras]
+
+        def extra_equations(self):
+            import casadi as ca
+
+            v = self.get_variables()
+            eqs = []
+            for e in self.c09_extras:
+                tot = 0
+                for cf, fs in e["terms"]:
+                    t = ca.MX(float(cf))
+                    for f in fs:
+                        t = t * (v["time"] if f == "@t" else ca.sin(v["time"]) if f == "@sin" else v[f])
+                    tot = tot + t
+                eqs.append(tot)
+            return eqs
 
     class Logged:
         """records get_var of every name after initialize() and after every update()"""
@@ -119,6 +139,7 @@ def row_scale(spec):
     """nominal magnitude per name: residual rows are judged against terms of nominal size"""
     nm = {s["n"]: s["nom"] for s in spec["states"]}
     nm.update({a["n"]: a["nom"] for a in spec["algs"]})
+    nm.update({e["n"]: e["nom"] for e in spec.get("extras", [])})
     for al in spec["aliases"]:
         nm[al["n"]] = nm[al["of"]]
     return nm
@@ -144,6 +165,9 @@ def scaled_residuals(spec, terms_list, vals, nm, der_override=None):
     return out
 
 
+WORST = {"residual/tolerance": 0.0, "derivative/tolerance": 0.0, "xcheck/tolerance": 0.0}
+
+
 def check_step(c, case, spec, prev, cur, dt, what):
     """the property at one step, on get_var values; returns the oracle's residual list
     (model equations, then derivative rows) for the comparison with the Lean model"""
@@ -160,6 +184,7 @@ def check_step(c, case, spec, prev, cur, dt, what):
         q = (cur[x] - prev[x]) / dt
         dq["der(%s)" % x] = q
         sc = 1.0 + abs(q) + (abs(cur[x]) + abs(prev[x]) + st["nom"]) / abs(dt)
+        WORST["derivative/tolerance"] = max(WORST["derivative/tolerance"], abs(cur["der(%s)" % x] - q) / (RES_TOL * sc))
         if not abs(cur["der(%s)" % x] - q) <= RES_TOL * sc:
             c.fail("%s: der(%s) is not (x(t+dt)-x(t))/dt" % (what, x), case,
                    {"der": cur["der(%s)" % x], "quotient": q, "x_prev": prev[x], "x": cur[x], "dt": dt})
@@ -167,9 +192,17 @@ def check_step(c, case, spec, prev, cur, dt, what):
     # model equations at t+dt with the difference quotients as derivatives
     res = scaled_residuals(spec, [eq["terms"] for eq in spec["eqs"]], cur, nm, dq)
     for eq, (r, sc) in zip(spec["eqs"], res):
+        WORST["residual/tolerance"] = max(WORST["residual/tolerance"], abs(r) / (RES_TOL * sc))
         if not abs(r) <= RES_TOL * sc:
             c.fail("%s: model equation for %s not satisfied at t+dt" % (what, eq["of"]), case,
                    {"residual": r, "scale": sc, "values": cur, "prev": prev, "dt": dt})
+            ok = False
+    # user-defined extra equations
+    res = scaled_residuals(spec, [e["terms"] for e in spec.get("extras", [])], cur, nm, dq)
+    for e, (r, sc) in zip(spec.get("extras", []), res):
+        if not abs(r) <= RES_TOL * sc:
+            c.fail("%s: extra equation for %s not satisfied at t+dt" % (what, e["n"]), case,
+                   {"residual": r, "scale": sc, "values": cur})
             ok = False
     # alias equations hold exactly
     for al in spec["aliases"]:
@@ -193,6 +226,11 @@ def check_init(c, case, spec, v0, expected_fixed, what):
         if not abs(r) <= RES_TOL * sc:
             c.fail("%s: initial equation %d not satisfied after initialize()" % (what, k), case,
                    {"residual": r, "scale": sc, "values": v0})
+    res = scaled_residuals(spec, [e["terms"] for e in spec.get("extras", [])], v0, nm)
+    for e, (r, sc) in zip(spec.get("extras", []), res):
+        if not abs(r) <= RES_TOL * sc:
+            c.fail("%s: extra equation for %s not satisfied after initialize()" % (what, e["n"]), case,
+                   {"residual": r, "scale": sc, "values": v0})
     for n, e in expected_fixed.items():
         if not abs(v0[n] - e) <= 1e-9 * max(1.0, abs(e), nm.get(n, 1.0)):
             c.fail("%s: fixed start value of %s not honoured" % (what, n), case, {"expected": e, "got": v0[n]})
@@ -214,12 +252,14 @@ class Wire:
         self.A = [a["n"] for a in spec["algs"]]
         self.U = list(spec["inputs"])
         self.P = [p["n"] for p in spec["params"]]
-        self.nom = [s["nom"] for s in spec["states"]] + [a["nom"] for a in spec["algs"]]
-        self.nX = 2 * len(self.S) + len(self.A)
+        self.E = [e["n"] for e in spec.get("extras", [])]
+        self.nom = ([s["nom"] for s in spec["states"]] + [a["nom"] for a in spec["algs"]]
+                    + [1.0] * len(self.S) + [e["nom"] for e in spec.get("extras", [])])
+        self.nX = 2 * len(self.S) + len(self.A) + len(self.E)
         self.model = G.wire_model(spec, fr)
         self.pvals = [pvals[p] for p in self.P]
         self.idx = {}
-        for i, n in enumerate(self.S + self.A + ["der(%s)" % s for s in self.S]):
+        for i, n in enumerate(self.S + self.A + ["der(%s)" % s for s in self.S] + self.E):
             self.idx[n] = (i, False)
         self.idx["time"] = (self.nX, False)
         for k, u in enumerate(self.U):
@@ -238,9 +278,8 @@ class Wire:
 
     def rawX(self, v):
         """scaled unknowns as the implementation stores them: physical / nominal"""
-        xs = [v[n] for n in self.S + self.A]
-        out = [x / m for x, m in zip(xs, self.nom)]
-        return out + [v["der(%s)" % s] for s in self.S]
+        xs = [v[n] for n in self.S + self.A + ["der(%s)" % s for s in self.S] + self.E]
+        return [x / m for x, m in zip(xs, self.nom)]
 
     def rest(self, v):
         return [v["time"]] + [v[u] for u in self.U] + [math.sin(v["time"])]
@@ -271,6 +310,9 @@ def stream_plain(c, spec, tmp, rng, pending, nsteps):
     G.write_mo(spec, tmp)
     names = G.all_names(spec)
     case = {"stream": "plain", "spec": spec}
+    if spec.get("extras"):
+        Plain = type("PlainX", (Plain,), {"c09_extras": spec["extras"]})
+        c.hit("plain/with-extra-equations")
     r = call(Plain, model_folder=tmp, model_name=spec["name"], input_folder=tmp, output_folder=tmp)
     c.programs += 1
     if r[0] == "raise":
@@ -282,7 +324,7 @@ def stream_plain(c, spec, tmp, rng, pending, nsteps):
     if missing:
         c.fail("model variables not available through get_var: %s" % missing, case)
         return None
-    for v in spec["states"] + spec["algs"]:
+    for v in spec["states"] + spec["algs"] + spec.get("extras", []):
         if sim.alias_relation.canonical_signed(v["n"])[0] != v["n"]:
             c.hit("plain/accidental-alias")  # e.g. `a1 = 1.0 * x1`: shares the canonical variable's nominal
             continue
@@ -317,8 +359,9 @@ def stream_plain(c, spec, tmp, rng, pending, nsteps):
     w = Wire(spec, pv)
     nm = row_scale(spec)
     # model: initial constraints evaluated at the returned state
-    exp = [x[0] for x in scaled_residuals(spec, [e["terms"] for e in spec["eqs"] + spec["init_eqs"]], v0, nm)]
-    scs = [x[1] for x in scaled_residuals(spec, [e["terms"] for e in spec["eqs"] + spec["init_eqs"]], v0, nm)]
+    allinit = [e["terms"] for e in spec["eqs"] + spec["init_eqs"] + spec.get("extras", [])]
+    exp = [x[0] for x in scaled_residuals(spec, allinit, v0, nm)]
+    scs = [x[1] for x in scaled_residuals(spec, allinit, v0, nm)]
     line = dict(op="init_constraints", sv=frs(w.sv(v0)), X=frs(w.rawX(v0)), **w.base())
 
     def cmp_init(out, exp=exp, scs=scs, case=case):
@@ -377,8 +420,10 @@ def stream_plain(c, spec, tmp, rng, pending, nsteps):
         # model residual at this step
         dq_rows = [cur["der(%s)" % s] - (cur[s] - prev[s]) / dt for s in w.S]
         rr = scaled_residuals(spec, [e["terms"] for e in spec["eqs"]], cur, nm)
-        exp = [x[0] for x in rr] + dq_rows
-        scs = [x[1] for x in rr] + [1.0 + abs(cur["der(%s)" % s]) + (abs(cur[s]) + abs(prev[s])) / dt for s in w.S]
+        rg = scaled_residuals(spec, [e["terms"] for e in spec.get("extras", [])], cur, nm)
+        exp = [x[0] for x in rr] + dq_rows + [x[0] for x in rg]
+        scs = ([x[1] for x in rr] + [1.0 + abs(cur["der(%s)" % s]) + (abs(cur[s]) + abs(prev[s])) / dt for s in w.S]
+               + [x[1] for x in rg])
         line = dict(op="residual", X=frs(w.rawX(cur)), dt=fr(dt),
                     consts=frs(w.rawX(prev) + w.rest(cur)), **w.base())
 
@@ -388,6 +433,17 @@ def stream_plain(c, spec, tmp, rng, pending, nsteps):
                 c.disagree("step residual (model vs oracle evaluation)", case, out, exp)
 
         pending.append((line, cmp_res))
+    # model get_var (index, sign, nominal) on the last state vector vs the real get_var of every name
+    last = log[-1]
+    qn = [n_ for n_ in names if n_ in w.idx]
+    line = dict(op="getvars", sv=frs(w.sv(last)), q=[[w.idx[n_][0], w.idx[n_][1]] for n_ in qn], **w.base())
+
+    def cmp_get(out, qn=qn, last=last, case=case):
+        if not isinstance(out, list) or len(out) != len(qn) or not all(
+                close(m, last[n_], 1e-12) for m, n_ in zip(out, qn)):
+            c.disagree("get_var of all names (model vs implementation)", case, out, [last[n_] for n_ in qn])
+
+    pending.append((line, cmp_get))
     # affine models: the model's own update with the exact root finder reproduces the run
     if affine_ok(spec):
         c.hit("plain/affine-runs")
@@ -795,6 +851,9 @@ def stream_xcheck(c, spec, tmp, rng, nsteps):
         except KeyError:
             c.fail("xcheck: %s missing from the optimisation results" % n_, case)
             continue
+        if len(a) == len(b):
+            WORST["xcheck/tolerance"] = max(WORST["xcheck/tolerance"], float(np.max(
+                np.abs(a - b) / (TRAJ_TOL * np.maximum(nm.get(n_, 1.0), np.maximum(np.abs(a), 1.0))))))
         if len(a) != len(b) or not np.all(np.abs(a - b) <= TRAJ_TOL * np.maximum(nm.get(n_, 1.0), np.maximum(np.abs(a), 1.0))):
             c.fail("simulation and theta=1 optimisation transcription give different trajectories for %s" % n_, case,
                    {"simulation": a.tolist(), "optimisation": b.tolist()})
@@ -965,9 +1024,30 @@ def probe_findings(c, tmp):
 # ------------------------------------------------------------------------------------------------
 
 
+def stream_bisect(c, rng, pending, n):
+    """`bisect.bisect_left` as used by the IO mixin vs the model's `bisectLeft` (exact)"""
+    import bisect
+
+    for _ in range(n):
+        m = rng.randint(0, 8)
+        step = rng.choice([1, 2, 0.5, 3600])
+        t0 = rng.choice([0, -2, -3]) * step
+        ts = [t0 + step * j for j in range(m)]
+        t = rng.choice(ts) if ts and rng.random() < 0.6 else rng.uniform(t0 - 2 * step, t0 + (m + 1) * step)
+        want = bisect.bisect_left(ts, t)
+        c.count(("bisect", m, t in ts))
+
+        def cmp(out, want=want, ts=ts, t=t):
+            if out != want:
+                c.disagree("bisect_left", {"ts": ts, "t": t}, out, want)
+
+        pending.append((dict(op="bisect", ts=frs(ts), t=fr(t)), cmp))
+
+
 def run_specs(c, specs_plain, specs_io, specs_x, nsteps):
     tmp = tempfile.mkdtemp(prefix="C09_")
     pending = []
+    stream_bisect(c, c.rng, pending, 40)
     try:
         for spec, sub in specs_plain:
             stream_plain(c, spec, os.path.join(tmp, "plain"), random.Random(sub), pending, nsteps)
@@ -1020,12 +1100,16 @@ def report_suspected(c, found):
 def run(c):
     logging.getLogger("rtctools").setLevel(logging.CRITICAL)
     c.rule = (
-        "random Modelica models printed from a coefficient table (1-3 states, 0-3 algebraics, 1-2 inputs, "
-        "0-2 parameters, 0-3 aliases half of them negated, nominals 0.01..1000, start modes fixed / fixed at 0 / "
-        "parameter start / free / initial equation / steady state; 40% with cubic, bilinear, sin(time), time terms); "
-        "streams: plain update() with varying dt and start time, CSVMixin and in-memory IOMixin runs (t0 inside "
-        "the import series, NaN gaps, parameter and initial-state files), optimisation cross-check, unsolvable "
-        "steps.  distinct = (stream, model, step) tuples; a model counts once per stream"
+        "random Modelica models printed from a coefficient table (1-3 states (4 in thorough), 0-3 algebraics, 1-2 "
+        "inputs, 0-2 parameters, 0-3 aliases half of them negated and used inside equations, nominals 0.01..1000, start "
+        "modes fixed / fixed at 0 / parameter start / free / none / initial equation / steady state; 40% with cubic, "
+        "bilinear, sin(time), time terms; a third of the plain models with Python-side extra variables + extra "
+        "equations); streams: plain update() with varying dt (positive and -1), start time != 0 and set_var on states "
+        "between steps; IO mixins: CSVMixin (files incl. parameters.csv / initial_state.csv, exported CSV read back), "
+        "PIMixin (generated rtcDataConfig / timeseries_import / rtcParameterConfig XML, forecast date inside the "
+        "series, missing values, exported XML read back) and an in-memory IOMixin (t0 inside the series, NaN gaps); "
+        "optimisation cross-check (ModelicaMixin + collocation, theta = 1, controls fixed by bounds, IPOPT); four "
+        "unsolvable step / initialisation models; bisect table.  distinct = (stream, model, step) tuples"
     )
     c.assumptions = [
         "pymoca delivers states and der_states in matching order and detects `a = b` / `a = -b` as aliases (re-checked per model through get_var on every name)",
@@ -1042,14 +1126,14 @@ def run(c):
     ]
     c.prove()
     rng = c.rng
-    n_plain = c.n(10, 80)
-    n_io = c.n(12, 90)
-    n_x = c.n(4, 40)
+    n_plain = c.n(18, 120)
+    n_io = c.n(18, 120)
+    n_x = c.n(8, 60)
     nsteps = 10
     k = 0
     specs_plain, specs_io, specs_x = [], [], []
     for _ in range(n_plain):
-        specs_plain.append((G.gen_spec(random.Random(c.subseed()), k, big=c.big), c.subseed()))
+        specs_plain.append((G.gen_spec(random.Random(c.subseed()), k, big=c.big, with_extras=(k % 3 == 2)), c.subseed()))
         k += 1
     for i in range(n_io):
         specs_io.append((G.gen_spec(random.Random(c.subseed()), k, big=c.big), c.subseed(), ("csv", "mem", "pi")[i % 3]))
@@ -1059,6 +1143,7 @@ def run(c):
         k += 1
     found = run_specs(c, specs_plain, specs_io, specs_x, nsteps)
     report_suspected(c, found)
+    c.extra["worst_observed_over_tolerance"] = {k: float("%.3g" % v) for k, v in WORST.items()}
     c.exhaustive = False
     c.notes.append("every returned state of every run is re-checked by the independent oracle; the Lean model "
                    "is evaluated on the same state vectors (residual agreement) and, for affine models, re-runs "
